@@ -247,6 +247,10 @@ EDGE_SOURCES = (
     ('31', "() except map{'a': 1}"), ('2', "1.5 = xs:untypedAtomic('x')"), ('31', '1.5 < //b'), ('31', '//c != 1.5'), ('31', 'math:exp10(99999999999)'),
     ('31', 'math:exp(99999999999)'), ('31', 'math:exp10(1e308)'), ('31', 'math:pow(2, 1e308)'), ('31', 'math:pow(2e0, 0.5)'), ('31', '1 to 9223372036854775808'),
     ('2', 'head(1 to 9223372036854775808)'), ('31', "[exists(b), name()]"), ('31', '//. ! name()'),
+    ('31', 'fold-left((), (), function($a, $b) { $a })'), ('31', 'array:fold-right([], (), function($a, $b) { $b })'), ('31', 'fold-left((1, 2), (0, 9), function($a, $b) { ($a, $b) })'),
+    ('2', 'subsequence((1, 2, 3), ())'), ('31', 'subsequence((1, 2, 3), 1, ())'), ('31', "compare('a', 'b', xs:anyURI('http://www.w3.org/2005/xpath-functions/collation/codepoint'))"),
+    ('31', "compare('a', 'b', 1)"), ('2', "ceiling(xs:untypedAtomic('1'))"), ('31', "floor(xs:untypedAtomic('x'))"), ('31', 'map:find(map{xs:double("NaN"): 1}, xs:double("NaN"))'),
+    ('31', "doc('http://[')"), ('31', "doc-available('http://[')"), ('31', "format-integer(0, 'a', 'de')"), ('31', "format-integer(28, 'A', 'xx')"),
 )
 _PARSERS = {'1': XPath1Parser, '2': XPath2Parser, '31': XPath31Parser}
 
